@@ -446,3 +446,23 @@ CLAIMS["C06"]["text"] = CLAIMS["C06"]["text"] + (
     "offset / done flag, same scripts, handed wakers and event trace; hypotheses: at least one child, Indexer.max = number of "
     "children, children answer like futures without panicking, not yet done), and Indexer::iter yields the rotated order Fix.rot. "
     "The array and tuple variants remain tied differentially.")
+
+def _fam(fn, thm, what):
+    return (" Static tie of the poll function (" + thm + "): " + fn + ", translated from the current source on every run "
+            "(tools/rs2lean.py -> lean/FcGen/KSrcFam*.lean), is proved to refine the model's Eng.poll / Eng.drop of that family - "
+            + what + " Hypotheses: the combinator is well-formed (counters match the state table, buffers sized to the number of "
+            "children), handed sub-wakers lie below the length, children answer like futures / streams without panicking, not yet "
+            "completed. The array and tuple containers remain tied differentially.")
+CLAIMS["C04"]["text"] += _fam("Join::poll and the PinnedDrop destructor of Vec<Fut>::join() (src/future/join/vec.rs)", "FcProps/KTieJoinV.lean: TieJoinV.poll_tie, drop_tie, new_wf",
+    "no panic, same outcome (the output vector on completion), same readiness set / states / output slots / pending counter, same scripts, handed wakers and event trace; the completing poll is compared through doneAgree (the crate moves the outputs out, the model keeps its copy).")
+CLAIMS["C02"]["text"] += " Static ties of destructors: TieJoinV.drop_tie, TieTryJoinV.drop_tie / drop_failed_tie, TieZipV.drop_tie (FcProps/KTie{JoinV,TryJoinV,ZipV}.lean): the translated PinnedDrop of the Vec join / try_join / zip emits exactly the model's drop events (outputs or buffered items released once, pending children dropped once)."
+CLAIMS["C05"]["text"] += _fam("TryJoin::poll and the PinnedDrop destructor of Vec<Fut>::try_join() (src/future/try_join/vec.rs)", "FcProps/KTieTryJoinV.lean: TieTryJoinV.poll_tie, drop_tie, drop_failed_tie, new_wf",
+    "incl. the return from inside the scan on the first Err and the drop after a failure (values produced by the other children are released, not returned).")
+CLAIMS["C08"]["text"] += _fam("Merge::poll_next of Vec<S>::merge() (src/stream/merge/vec.rs)", "FcProps/KTieMergeV.lean: TieMergeV.poll_tie, poll_tie_strong",
+    "rotating Indexer order, loopwise any_ready test, clear-first gate, re-arm after an item, end when the last input ends.")
+CLAIMS["C17"]["text"] += _fam("Merge::poll_next of Vec<S>::merge() (src/stream/merge/vec.rs)", "FcProps/KTieMergeV.lean + KTieIdx.lean",
+    "in particular the scan order of every poll is Fix.rot and the offset is bumped once per poll, which is what the fairness theorem uses.")
+CLAIMS["C09"]["text"] += _fam("Zip::poll_next and the PinnedDrop destructor of Vec<S>::zip() (src/stream/zip/vec.rs)", "FcProps/KTieZipV.lean: TieZipV.poll_tie, drop_tie, new_wf",
+    "row buffer, all-ready test, re-arming of every slot after a row, end on the first None, buffered items of the unfinished row released by the destructor.")
+CLAIMS["C10"]["text"] += _fam("Chain::poll_next of Vec<S>::chain() (src/stream/chain/vec.rs)", "FcProps/KTieChainV.lean: TieChainV.poll_tie",
+    "the Rust loop over the current input (index advanced only when an input ends), direct strategy.")
